@@ -27,6 +27,12 @@ Proof. exact escape_string_json_valid. Qed.
 Theorem C05_unescape_escape : forall s rest, lex_string (escape_string_json s ++ rest) = Some (s, rest).
 Proof. exact unescape_escape. Qed.
 
+(* the reader is strict: whatever it accepts as a string literal is a quoted sequence of RFC 8259
+   chars (so a raw control character, a bare backslash or a short \u escape is never read) *)
+Theorem C05_decoder_strings_strict : forall s cs r, lex_string s = Some (cs, r) ->
+  exists body, s = 34 :: body ++ 34 :: r /\ json_chars body.
+Proof. exact lex_string_sound. Qed.
+
 (* the emitted document of every value with finite numbers, in every whitespace format and at
    every starting depth, decodes to exactly that value — for any number printer/reader pair
    that round-trips the numbers of the value and prints RFC 8259 numbers *)
@@ -49,6 +55,15 @@ Theorem C05_manifest_parse_roundtrip_finite :
   (forall x, num_ok x -> is_json_number (show x) = true) ->
   forall fmt v d, ws_format fmt -> finite_nums v -> decode read (manifest show fmt d v) = Ok v.
 Proof. intros show read H1 H2 fmt v d. exact (manifest_parse_roundtrip num_ok show read H1 H2 fmt v d). Qed.
+
+(* consequently two different values never share a document, whatever the two formats *)
+Theorem C05_manifest_injective :
+  forall (show : f64 -> str) (read : str -> option f64),
+  (forall x, num_ok x -> read (show x) = Some x) ->
+  (forall x, num_ok x -> is_json_number (show x) = true) ->
+  forall fmt1 fmt2 v1 v2 d1 d2, ws_format fmt1 -> ws_format fmt2 -> finite_nums v1 -> finite_nums v2 ->
+  manifest show fmt1 d1 v1 = manifest show fmt2 d2 v2 -> v1 = v2.
+Proof. intros show read H1 H2. exact (manifest_injective num_ok show read H1 H2). Qed.
 
 (* the command-line document (multi-line format + trailing newline) *)
 Theorem C05_cli_default_roundtrip :
@@ -154,8 +169,10 @@ Print Assumptions C05_key_tables_match_model.
 Print Assumptions C05_escape_valid.
 Print Assumptions C05_escape_string_json_valid.
 Print Assumptions C05_unescape_escape.
+Print Assumptions C05_decoder_strings_strict.
 Print Assumptions C05_manifest_parse_roundtrip.
 Print Assumptions C05_manifest_parse_roundtrip_finite.
+Print Assumptions C05_manifest_injective.
 Print Assumptions C05_cli_default_roundtrip.
 Print Assumptions C05_ws_erasure.
 Print Assumptions C05_builtin_formats_ws.
